@@ -111,7 +111,16 @@ def paragraph_reason(lines, setext=True):
     if ENTITY.search(text):
         return 'character reference'
     if text.count('~') > 1:
-        return 'two tildes'
+        # GFM strikethrough: a pair of one- or two-tilde runs, the first able to open (something other than white space
+        # follows it) and a later one able to close (something other than white space precedes it).  Tildes that cannot
+        # pair under that reading ('~ 5 and ~ 10', '~5 to ~7') have no meaning; anything else is kept out
+        if '~~' in text:
+            return 'two tildes'
+        pos = [i for i, c in enumerate(text) if c == '~']
+        can_open = [i for i in pos if i + 1 < len(text) and not text[i + 1].isspace()]
+        can_close = [i for i in pos if i > 0 and not text[i - 1].isspace()]
+        if any(o < c for o in can_open for c in can_close):
+            return 'two tildes'
     if any(c.isspace() and c not in ' \n' for c in ''.join(l[:1] + l[-1:] for l in lines)):
         return 'non-ASCII whitespace at a line end'
     nodes, stats = emphasis_model.process(emphasis_model.scan(text))
